@@ -1,6 +1,6 @@
 (* C10 — lemmas about Model/Validation.v and Spec/Rules.v. *)
 From VRP Require Import Base.Tac Model.Validation Spec.Rules Generated.RuleTable.
-From Coq Require Import String.
+From Coq Require Import String Permutation Sorted.
 
 (* ---------- rule tables (re-proved against the regenerated Generated/RuleTable.v on every run) ---------- *)
 Definition zmem (c : Z) (l : list Z) : bool := existsb (Z.eqb c) l.
@@ -108,21 +108,142 @@ Proof. unfold overlap. now rewrite orb_comm. Qed.
 Lemma somes_eq l : unwrap_all l = somes l.
 Proof. induction l as [|[x|] r IH]; cbn; congruence. Qed.
 
-(* check_time_windows agrees with the documented rules on lists of at most two windows *)
-Lemma check_time_windows_spec ws skip : (List.length ws <= 2)%nat ->
-  check_time_windows ws skip = nonempty ws && windows_ok skip ws.
+(* sorting *)
+Definition le_start (a b : tw) : Prop := fst a <= fst b.
+Lemma insert_perm x l : Permutation (x :: l) (insert_by_start x l).
 Proof.
-  intros Hlen. destruct ws as [|o1 [|o2 [|o3 r]]]; [reflexivity| | |cbn in Hlen; lia].
-  - destruct o1 as [a|]; [|reflexivity].
-    unfold check_time_windows, windows_ok. cbn. rewrite andb_true_r. now destruct skip; rewrite ?andb_true_r.
-  - destruct o1 as [a|]; [|reflexivity]. destruct o2 as [b|]; [|unfold check_time_windows, windows_ok; cbn; now rewrite ?andb_false_r].
-    unfold check_time_windows, windows_ok. cbn -[pair_ok].
-    assert (Hs : pair_ok skip b a = pair_ok skip a b).
-    { unfold pair_ok. rewrite !overlap_eq, (overlap_sym b a). destruct (fst a <=? snd a), (fst b <=? snd b); reflexivity. }
-    assert (Hg : (if fst a <=? fst b then pair_ok skip a b || false else pair_ok skip b a || false) = pair_ok skip a b).
-    { destruct (fst a <=? fst b); rewrite orb_false_r; auto. }
-    destruct (fst a <=? fst b); cbn -[pair_ok]; rewrite orb_false_r, ?Hs; unfold pair_ok; rewrite overlap_eq;
-      destruct (fst a <=? snd a), (fst b <=? snd b), skip, (overlap a b); reflexivity.
+  induction l as [|y r IH]; cbn [insert_by_start]; [reflexivity|].
+  destruct (fst x <=? fst y); [reflexivity|].
+  apply perm_trans with (y :: x :: r); [apply perm_swap|apply perm_skip, IH].
+Qed.
+Lemma sort_perm l : Permutation l (sort_by_start l).
+Proof.
+  induction l as [|x r IH]; cbn [sort_by_start]; [reflexivity|].
+  apply perm_trans with (x :: sort_by_start r); [apply perm_skip, IH|apply insert_perm].
+Qed.
+Lemma perm_Forall {A} (P : A -> Prop) l l' : Permutation l l' -> Forall P l -> Forall P l'.
+Proof.
+  intros Hp H. rewrite Forall_forall in *. intros x Hx. apply H. apply (Permutation_in x (Permutation_sym Hp) Hx).
+Qed.
+Lemma insert_sorted x l : StronglySorted le_start l -> StronglySorted le_start (insert_by_start x l).
+Proof.
+  induction l as [|y r IH]; intros HS; cbn [insert_by_start].
+  - constructor; constructor.
+  - inversion HS as [|? ? HSr Hy]; subst. destruct (Z.leb_spec (fst x) (fst y)) as [Hle|Hgt].
+    + constructor; [exact HS|]. constructor; [exact Hle|].
+      eapply Forall_impl; [|exact Hy]. unfold le_start. intros z Hz. lia.
+    + constructor; [now apply IH|].
+      apply (perm_Forall _ _ _ (insert_perm x r)). constructor; [unfold le_start; lia|exact Hy].
+Qed.
+Lemma sort_sorted l : StronglySorted le_start (sort_by_start l).
+Proof. induction l as [|x r IH]; cbn [sort_by_start]; [constructor|now apply insert_sorted]. Qed.
+
+Lemma forallb_perm {A} (f : A -> bool) l l' : Permutation l l' -> forallb f l = forallb f l'.
+Proof.
+  induction 1 as [|x l l' _ IH|x y l|l l' l'' _ IH1 _ IH2]; cbn [forallb]; [reflexivity|now rewrite IH| |congruence].
+  destruct (f x), (f y); reflexivity.
+Qed.
+Lemma pw_cons {A} (r : A -> A -> bool) x t : pairwise r (x :: t) = forallb (r x) t && pairwise r t.
+Proof. reflexivity. Qed.
+Lemma pairwise_perm {A} (r : A -> A -> bool) (Hsym : forall a b, r a b = r b a) l l' :
+  Permutation l l' -> pairwise r l = pairwise r l'.
+Proof.
+  induction 1 as [|x l l' Hp IH|x y l|l l' l'' _ IH1 _ IH2]; [reflexivity| | |congruence].
+  - rewrite !pw_cons. now rewrite IH, (forallb_perm (r x) l l' Hp).
+  - rewrite !pw_cons. cbn [forallb]. rewrite (Hsym y x).
+    destruct (r x y), (forallb (r y) l), (forallb (r x) l), (pairwise r l); reflexivity.
+Qed.
+Lemma pairwise_ext {A} (r r' : A -> A -> bool) l : (forall a b, r a b = r' a b) -> pairwise r l = pairwise r' l.
+Proof.
+  intros H. induction l as [|x t IH]; [reflexivity|]. rewrite !pw_cons, IH. f_equal. apply forallb_ext_in. intros; apply H.
+Qed.
+
+Definition valid (a : tw) : bool := fst a <=? snd a.
+Definition disj (a b : tw) : bool := negb (intersects a b).
+Lemma disj_sym a b : disj a b = disj b a.
+Proof. unfold disj. now rewrite !overlap_eq, overlap_sym. Qed.
+Lemma pair_ok_eq skip a b : pair_ok skip a b = valid a && valid b && (skip || disj a b).
+Proof. reflexivity. Qed.
+Lemma w2_cons f a b r : windows2_all f (a :: b :: r) = f a b && windows2_all f (b :: r).
+Proof. reflexivity. Qed.
+
+(* windows(2).all(pair_ok) = every window valid and every adjacent pair disjoint *)
+Lemma windows2_pair_ok_cons skip r : forall a b,
+  windows2_all (pair_ok skip) (a :: b :: r) = valid a && forallb valid (b :: r) && (skip || windows2_all disj (a :: b :: r)).
+Proof.
+  induction r as [|c r' IH]; intros a b.
+  - rewrite !w2_cons, pair_ok_eq. cbn [windows2_all forallb].
+    destruct (valid a), (valid b), skip, (disj a b); reflexivity.
+  - rewrite (w2_cons (pair_ok skip) a b), (w2_cons disj a b), IH, pair_ok_eq. cbn [forallb].
+    destruct (valid a), (valid b), (valid c), (forallb valid r'), skip, (disj a b), (windows2_all disj (b :: c :: r')); reflexivity.
+Qed.
+Lemma windows2_pair_ok skip l : (2 <= List.length l)%nat ->
+  windows2_all (pair_ok skip) l = forallb valid l && (skip || windows2_all disj l).
+Proof.
+  destruct l as [|a [|b r]]; cbn [List.length]; try lia. intros _. now rewrite windows2_pair_ok_cons.
+Qed.
+
+(* on a list sorted by start whose windows are all valid, adjacent disjointness is pairwise disjointness *)
+Lemma sorted_adjacent_pairwise l : StronglySorted le_start l -> forallb valid l = true ->
+  windows2_all disj l = pairwise disj l.
+Proof.
+  induction l as [|a l IH]; intros HS Hv; [reflexivity|].
+  inversion HS as [|? ? HSl Ha]; subst. cbn [forallb] in Hv. apply andb_prop in Hv. destruct Hv as [Hva Hvl].
+  specialize (IH HSl Hvl). destruct l as [|b r]; [reflexivity|].
+  rewrite w2_cons, IH, (pw_cons disj a). cbn [forallb].
+  destruct (disj a b) eqn:Hd; [|reflexivity]. cbn [andb].
+  assert (Hall : forallb (disj a) r = true).
+  { apply forallb_forall. intros c Hc.
+    inversion HSl as [|? ? _ Hb]; subst. rewrite Forall_forall in Hb. specialize (Hb c Hc).
+    inversion Ha as [|? ? Hab _]; subst. cbn [forallb] in Hvl. apply andb_prop in Hvl. destruct Hvl as [Hvb _].
+    unfold valid in Hva, Hvb. apply Z.leb_le in Hva, Hvb. unfold le_start in Hb, Hab.
+    unfold disj, intersects in *.
+    destruct (Z.leb_spec (fst a) (snd b)), (Z.leb_spec (fst b) (snd a)); cbn in Hd; try discriminate;
+      destruct (Z.leb_spec (fst a) (snd c)), (Z.leb_spec (fst c) (snd a)); cbn; try reflexivity; lia. }
+  now rewrite Hall.
+Qed.
+
+Lemma none_forallb ws : existsb (@is_none tw) ws = true ->
+  forallb (fun o : option (Z * Z) => match o with Some w => fst w <=? snd w | None => false end) ws = false.
+Proof.
+  induction ws as [|[w|] r IH]; cbn [existsb forallb is_none orb]; [discriminate| |reflexivity].
+  intros H. rewrite (IH H). apply andb_false_r.
+Qed.
+Lemma all_some ws : existsb (@is_none tw) ws = false -> ws = map Some (unwrap_all ws).
+Proof.
+  induction ws as [|[w|] r IH]; cbn [existsb unwrap_all map is_none orb]; [reflexivity| |discriminate].
+  intros H. f_equal. now apply IH.
+Qed.
+Lemma map_some_facts (l : list tw) :
+  nonempty (map Some l) = nonempty l
+  /\ forallb (fun o : option (Z * Z) => match o with Some w => fst w <=? snd w | None => false end) (map Some l) = forallb valid l
+  /\ @somes (Z * Z) (map Some l) = l /\ unwrap_all (map Some l) = l.
+Proof.
+  repeat split; try (now destruct l); induction l as [|x l IH]; cbn; try reflexivity; now rewrite IH.
+Qed.
+
+(* check_time_windows (after the repair c324ed4) is exactly the documented window rule, for lists of any length *)
+Lemma check_time_windows_spec ws skip : check_time_windows ws skip = nonempty ws && windows_ok skip ws.
+Proof.
+  unfold check_time_windows, windows_ok. destruct (existsb is_none ws) eqn:En.
+  - rewrite (none_forallb ws En). now rewrite andb_false_r.
+  - rewrite (all_some ws En). generalize (unwrap_all ws). clear ws En. intros l.
+    destruct (map_some_facts l) as (E1 & E2 & E3 & E4). rewrite E1, E2, E3, E4. clear E1 E2 E3 E4.
+    destruct l as [|a [|b r]].
+    + reflexivity.
+    + cbn. unfold valid. destruct (fst a <=? snd a), skip; reflexivity.
+    + cbv beta iota zeta. remember (a :: b :: r) as l eqn:El.
+      assert (Hl2 : (2 <= List.length l)%nat) by (subst l; cbn; lia).
+      assert (Hne : nonempty l = true) by (subst l; reflexivity).
+      clear El a b r. rewrite Hne. cbn [andb].
+      assert (Hp := sort_perm l). assert (Hlen := Permutation_length Hp).
+      assert (Hnil : is_nil (sort_by_start l) = false) by (destruct (sort_by_start l); [cbn in Hlen; lia|reflexivity]).
+      rewrite Hnil. cbn [negb andb]. rewrite windows2_pair_ok by lia. rewrite <- (forallb_perm valid _ _ Hp).
+      destruct (forallb valid l) eqn:Hv; [|reflexivity]. cbn [andb].
+      rewrite sorted_adjacent_pairwise; [|apply sort_sorted|now rewrite <- (forallb_perm valid _ _ Hp)].
+      rewrite <- (pairwise_perm disj disj_sym _ _ Hp).
+      rewrite (pairwise_ext disj (fun a b => negb (overlap a b))); [reflexivity|].
+      intros x y. unfold disj. now rewrite overlap_eq.
 Qed.
 
 Lemma windows_ok_all_some skip ws : windows_ok skip ws = true -> forall o, In o ws -> exists w, o = Some w /\ fst w <= snd w.
@@ -239,31 +360,28 @@ Proof.
            (Z.eqb_spec (dim_sum i (tasks (j_pickups j))) (dim_sum i (tasks (j_deliveries j)))); cbn; try reflexivity; lia.
 Qed.
 
-Lemma ge3_false {A} (l : list A) : ge3 l = false -> (List.length l <= 2)%nat.
-Proof. unfold ge3. intros H. apply Nat.leb_gt in H. lia. Qed.
 
-Lemma raw_windows_spec tws : (List.length tws <= 2)%nat -> check_raw_time_windows tws false = times_ok tws.
+
+Lemma raw_windows_spec tws : check_raw_time_windows tws false = times_ok tws.
 Proof.
-  intros H. unfold check_raw_time_windows, get_time_windows, times_ok.
-  rewrite check_time_windows_spec by now rewrite map_length.
+  unfold check_raw_time_windows, get_time_windows, times_ok. rewrite check_time_windows_spec.
   rewrite (map_ext _ _ parse_window_eq). now destruct tws.
 Qed.
 
-Lemma e1103_ok d : k1_three_windows d = false -> k2_unchecked_task_times d = false -> check_e1103 d = Some (viol_1103 d).
+Lemma has_invalid_tws_spec o :
+  has_invalid_tws o = existsb (fun t => existsb (fun p => match pl_times p with
+                                                          | Some tws => negb (times_ok tws)
+                                                          | None => false end) (tk_places t)) (tasks o).
 Proof.
-  intros H1 H2. unfold check_e1103, viol_1103. f_equal. apply existsb_ext_in. intros j Hj.
-  unfold k1_three_windows in H1. apply orb_false_iff in H1. destruct H1 as [H1 _].
-  rewrite existsb_false in H1. specialize (H1 j Hj). cbn beta in H1.
-  unfold k2_unchecked_task_times in H2. rewrite existsb_false in H2. specialize (H2 j Hj). cbn beta in H2.
-  unfold job_tasks. rewrite (app_assoc (tasks (j_pickups j))), existsb_app, H2, orb_false_r, existsb_app.
-  rewrite existsb_app in H1. apply orb_false_iff in H1. destruct H1 as [H1p H1d].
-  unfold has_invalid_tws. rewrite !tasks_olist in *. f_equal.
-  - apply existsb_ext_in. intros t Ht. apply existsb_ext_in. intros p Hp.
-    rewrite existsb_false in H1p. specialize (H1p t Ht). cbn beta in H1p. rewrite existsb_false in H1p. specialize (H1p p Hp).
-    cbn beta in H1p. destruct (pl_times p) as [tws|]; [|reflexivity]. now rewrite raw_windows_spec by now apply ge3_false.
-  - apply existsb_ext_in. intros t Ht. apply existsb_ext_in. intros p Hp.
-    rewrite existsb_false in H1d. specialize (H1d t Ht). cbn beta in H1d. rewrite existsb_false in H1d. specialize (H1d p Hp).
-    cbn beta in H1d. destruct (pl_times p) as [tws|]; [|reflexivity]. now rewrite raw_windows_spec by now apply ge3_false.
+  unfold has_invalid_tws. apply existsb_ext_in. intros t _. apply existsb_ext_in. intros p _.
+  destruct (pl_times p); [now rewrite raw_windows_spec|reflexivity].
+Qed.
+Lemma e1103_ok d : check_e1103 d = Some (viol_1103 d).
+Proof.
+  unfold check_e1103, viol_1103. f_equal. apply existsb_ext_in. intros j _.
+  unfold job_tasks. rewrite !existsb_app, !has_invalid_tws_spec.
+  destruct (existsb _ (tasks (j_pickups j))), (existsb _ (tasks (j_deliveries j))),
+           (existsb _ (tasks (j_replacements j))), (existsb _ (tasks (j_services j))); reflexivity.
 Qed.
 
 Lemma e1104_ok d : check_e1104 d = Some (viol_1104 d).
@@ -305,73 +423,45 @@ Proof. unfold check_e1301, viol_1301. now rewrite has_dup_spec. Qed.
 Lemma shift_window_eq s : get_time_window_from_vec (shift_raw_window s) = shift_window s.
 Proof. unfold shift_raw_window, shift_window, get_time_window_from_vec, get_time_window. now destruct (sh_end s). Qed.
 
-Lemma k1_vehicle d : k1_three_windows d = false -> forall v, In v (d_vehicles d) ->
-  ge3 (v_shifts v) = false /\
-  forall s, In s (v_shifts v) ->
-    (forall bs, sh_breaks s = Some bs -> ge3 (break_windows s bs) = false) /\
-    (forall rs, sh_reloads s = Some rs -> ge3 (reload_windows rs) = false).
-Proof.
-  unfold k1_three_windows. intros H v Hv. apply orb_false_iff in H. destruct H as [_ H].
-  rewrite existsb_false in H. specialize (H v Hv). cbn beta in H. apply orb_false_iff in H. destruct H as [Hs H].
-  split; [exact Hs|]. intros s Hin. rewrite existsb_false in H. specialize (H s Hin). cbn beta in H.
-  apply orb_false_iff in H. destruct H as [Hb Hr]. split.
-  - intros bs E. now rewrite E in Hb.
-  - intros rs E. now rewrite E in Hr.
-Qed.
 
-Lemma e1302_ok d : k1_three_windows d = false -> check_e1302 d = Some (viol_1302 d).
+
+Lemma e1302_ok d : check_e1302 d = Some (viol_1302 d).
 Proof.
-  intros H1. unfold check_e1302, viol_1302. f_equal. apply existsb_ext_in. intros v Hv.
-  destruct (k1_vehicle d H1 v Hv) as [Hs _]. f_equal.
-  unfold check_raw_time_windows, get_time_windows. rewrite map_map.
-  rewrite check_time_windows_spec by (rewrite map_length; now apply ge3_false).
+  unfold check_e1302, viol_1302. f_equal. apply existsb_ext_in. intros v _. f_equal.
+  unfold check_raw_time_windows, get_time_windows. rewrite map_map, check_time_windows_spec.
   rewrite (map_ext _ _ shift_window_eq). now destruct (v_shifts v).
 Qed.
 
 Lemma shift_span_eq s : get_shift_time_window s = shift_span s.
 Proof. reflexivity. Qed.
 
-(* check_shift_time_windows against "window rules + inside the shift" on at most two windows *)
-Lemma check_shift_windows_spec s ws skip : (List.length ws <= 2)%nat ->
+(* check_shift_time_windows against "window rules + inside the shift" *)
+Lemma check_shift_windows_spec s ws skip :
   check_shift_time_windows (get_shift_time_window s) ws skip
   = negb (nonempty ws && negb (windows_ok skip ws && inside_shift s ws)).
 Proof.
-  intros Hlen. unfold check_shift_time_windows. destruct ws as [|o ws']; [reflexivity|].
-  set (ws := o :: ws') in *. rewrite check_time_windows_spec by exact Hlen.
+  unfold check_shift_time_windows. destruct ws as [|o ws']; [reflexivity|].
+  set (ws := o :: ws') in *. rewrite check_time_windows_spec.
   change (nonempty ws) with true. cbn [andb]. rewrite negb_involutive.
   destruct (windows_ok skip ws) eqn:Hok; [|reflexivity]. cbn [andb].
   unfold inside_shift. rewrite shift_span_eq. destruct (shift_span s) as [sp|]; [|reflexivity].
-  assert (Hall := windows_ok_all_some _ _ Hok). clearbody ws. clear Hok Hlen.
+  assert (Hall := windows_ok_all_some _ _ Hok). clearbody ws. clear Hok.
   induction ws as [|x ws IH]; [reflexivity|]. cbn [forallb somes].
   destruct (Hall x (or_introl eq_refl)) as (w & -> & _). cbn [forallb somes]. rewrite overlap_eq. f_equal.
   apply IH. intros; apply Hall; now right.
 Qed.
 
-Lemma break_tws_spec s bs :
-  (tm_val (sh_earliest s) = None -> forall b, In b bs -> match b with BReqOff _ _ _ => False | _ => True end) ->
-  break_tws s bs = Some (break_windows s bs).
+Lemma break_tws_spec s bs : break_tws s bs = break_windows s bs.
 Proof.
-  induction bs as [|b bs IH]; intros H; [reflexivity|]. cbn [break_tws break_windows flat_map].
-  rewrite IH by (intros E b' Hb'; apply (H E); now right).
-  fold (break_windows s bs). generalize (break_windows s bs). intros W.
-  destruct b as [w|o|e l dur|e l dur]; cbn [break_tw app].
-  - now rewrite parse_window_eq.
-  - reflexivity.
-  - destruct (tm_val (sh_earliest s)) eqn:E; [reflexivity|]. exfalso. apply (H eq_refl (BReqOff e l dur)). now left.
-  - reflexivity.
+  induction bs as [|b bs IH]; [reflexivity|]. cbn [break_tws break_windows flat_map]. fold (break_windows s bs).
+  rewrite <- IH. destruct b as [w|o|e l dur|e l dur]; cbn [break_tw app]; reflexivity.
 Qed.
 
-Lemma k3_shift d : k3_offset_break_bad_start d = false -> forall v, In v (d_vehicles d) -> forall s, In s (v_shifts v) ->
-  tm_val (sh_earliest s) = None -> forall b, In b (olist (sh_breaks s)) -> match b with BReqOff _ _ _ => False | _ => True end.
-Proof.
-  unfold k3_offset_break_bad_start. intros H v Hv s Hs E b Hb.
-  rewrite existsb_false in H. specialize (H v Hv). cbn beta in H. rewrite existsb_false in H. specialize (H s Hs).
-  cbn beta in H. rewrite E in H. rewrite existsb_false in H. specialize (H b Hb). now destruct b.
-Qed.
 
-Lemma e1303_ok d : k1_three_windows d = false -> k3_offset_break_bad_start d = false -> check_e1303 d = Some (viol_1303 d).
+
+Lemma e1303_ok d : check_e1303 d = Some (viol_1303 d).
 Proof.
-  intros H1 H3. unfold check_e1303, viol_1303.
+  unfold check_e1303, viol_1303.
   rewrite (any_vehicle_invalid_total e1303_shift
            (fun s => match sh_breaks s with
                      | None => true
@@ -380,11 +470,8 @@ Proof.
                      end)).
   - f_equal. apply existsb_ext_in. intros v _. apply existsb_ext_in. intros s _.
     destruct (sh_breaks s); [now rewrite negb_involutive|reflexivity].
-  - intros v Hv s Hs. unfold e1303_shift. destruct (sh_breaks s) as [bs|] eqn:Eb; [|reflexivity].
-    rewrite break_tws_spec.
-    + f_equal. apply check_shift_windows_spec. apply ge3_false.
-      destruct (k1_vehicle d H1 v Hv) as [_ Hk]. now apply (Hk s Hs).
-    + intros E b Hb. apply (k3_shift d H3 v Hv s Hs E). now rewrite Eb.
+  - intros v _ s _. unfold e1303_shift. destruct (sh_breaks s) as [bs|]; [|reflexivity].
+    rewrite break_tws_spec. f_equal. apply check_shift_windows_spec.
 Qed.
 
 Lemma reload_windows_eq rs : reload_tws rs = reload_windows rs.
@@ -392,9 +479,9 @@ Proof.
   unfold reload_tws, reload_windows. induction rs as [|r rs IH]; [reflexivity|]. cbn [flat_map]. rewrite IH. f_equal.
 Qed.
 
-Lemma e1304_ok d : k1_three_windows d = false -> check_e1304 d = Some (viol_1304 d).
+Lemma e1304_ok d : check_e1304 d = Some (viol_1304 d).
 Proof.
-  intros H1. unfold check_e1304, viol_1304.
+  unfold check_e1304, viol_1304.
   rewrite (any_vehicle_invalid_total e1304_shift
            (fun s => match sh_reloads s with
                      | None => true
@@ -403,9 +490,8 @@ Proof.
                      end)).
   - f_equal. apply existsb_ext_in. intros v _. apply existsb_ext_in. intros s _.
     destruct (sh_reloads s); [now rewrite negb_involutive|reflexivity].
-  - intros v Hv s Hs. unfold e1304_shift. destruct (sh_reloads s) as [rs|] eqn:Er; [|reflexivity].
-    rewrite reload_windows_eq. f_equal. apply check_shift_windows_spec. apply ge3_false.
-    destruct (k1_vehicle d H1 v Hv) as [_ Hk]. now apply (Hk s Hs).
+  - intros v _ s _. unfold e1304_shift. destruct (sh_reloads s) as [rs|]; [|reflexivity].
+    rewrite reload_windows_eq. f_equal. apply check_shift_windows_spec.
 Qed.
 
 Lemma e1306_ok d : check_e1306 d = Some (viol_1306 d).
@@ -459,7 +545,6 @@ Definition spec_result (d : doc) : vres :=
   match filter (fun c => violates c d) (map fst all_checks) with [] => VOk | cs => VErr cs end.
 
 Lemma known_false d : known d = false ->
-  k1_three_windows d = false /\ k2_unchecked_task_times d = false /\ k3_offset_break_bad_start d = false /\
   k4_start_latest_bad d = false /\ k5_offset_arity d = false /\ k6_capacity_empty d = false /\ k7_over8 d = false /\
   k8_empty_demand_vectors d = false /\ k9_no_vehicles d = false /\ k10_no_profiles d = false.
 Proof.
@@ -469,22 +554,22 @@ Qed.
 
 Lemma checks_agree d : known d = false -> forall c f, In (c, f) all_checks -> f d = Some (violates c d).
 Proof.
-  intros Hk c f Hin. destruct (known_false d Hk) as (H1 & H2 & H3 & H4 & H5 & H6 & H7 & H8 & H9 & H10).
+  intros Hk c f Hin. destruct (known_false d Hk) as (H4 & H5 & H6 & H7 & H8 & H9 & H10).
   unfold all_checks, jobs_checks, vehicles_checks, routing_checks in Hin. cbn [app In] in Hin.
   repeat (destruct Hin as [Hin|Hin]; [inversion Hin; subst c f; clear Hin|]); [..|contradiction].
   - change (violates 1100 d) with (viol_1100 d). apply e1100_ok.
   - change (violates 1101 d) with (viol_1101 d). apply e1101_ok.
   - change (violates 1102 d) with (viol_1102 d). now apply e1102_ok.
-  - change (violates 1103 d) with (viol_1103 d). now apply e1103_ok.
+  - change (violates 1103 d) with (viol_1103 d). apply e1103_ok.
   - change (violates 1104 d) with (viol_1104 d). apply e1104_ok.
   - change (violates 1105 d) with (viol_1105 d). apply e1105_ok.
   - change (violates 1106 d) with (viol_1106 d). apply e1106_ok.
   - change (violates 1107 d) with (viol_1107 d). apply e1107_ok.
   - change (violates 1300 d) with (viol_1300 d). apply e1300_ok.
   - change (violates 1301 d) with (viol_1301 d). apply e1301_ok.
-  - change (violates 1302 d) with (viol_1302 d). now apply e1302_ok.
-  - change (violates 1303 d) with (viol_1303 d). now apply e1303_ok.
-  - change (violates 1304 d) with (viol_1304 d). now apply e1304_ok.
+  - change (violates 1302 d) with (viol_1302 d). apply e1302_ok.
+  - change (violates 1303 d) with (viol_1303 d). apply e1303_ok.
+  - change (violates 1304 d) with (viol_1304 d). apply e1304_ok.
   - change (violates 1306 d) with (viol_1306 d). apply e1306_ok.
   - change (violates 1307 d) with (viol_1307 d). apply e1307_ok.
   - change (violates 1308 d) with (viol_1308 d). apply e1308_ok.
@@ -577,7 +662,7 @@ Section Safe.
 
   Lemma fleet_safe : fleet_panics d = false.
   Proof.
-    destruct (known_false d Hk) as (_ & _ & _ & H4 & _ & H6 & H7 & _ & H9 & _).
+    destruct (known_false d Hk) as (H4 & _ & H6 & H7 & _ & H9 & _).
     unfold fleet_panics. apply orb_false_iff. split; [apply orb_false_iff; split|].
     - exact H1505.
     - apply existsb_false. intros v Hin. apply existsb_false. intros s Hs.
@@ -622,7 +707,7 @@ Section Safe.
 
   Lemma jobs_safe : jobs_panic d = false.
   Proof.
-    destruct (known_false d Hk) as (_ & _ & _ & _ & _ & _ & H7 & _).
+    destruct (known_false d Hk) as (_ & _ & _ & H7 & _).
     unfold jobs_panic. apply existsb_false. intros j Hj. apply existsb_false. intros t Ht.
     rewrite (k7_jobs d H7 j Hj t Ht). cbn [orb]. apply existsb_false. intros p Hp.
     unfold viol_1103 in H1103. rewrite existsb_false in H1103. specialize (H1103 j Hj). cbn beta in H1103.
@@ -634,7 +719,7 @@ Section Safe.
 
   Lemma conditional_safe : conditional_panic d = false.
   Proof.
-    destruct (known_false d Hk) as (_ & _ & _ & _ & H5 & _).
+    destruct (known_false d Hk) as (_ & H5 & _).
     unfold conditional_panic. apply existsb_false. intros v Hin. destruct (v_ids v) as [|vid vids]; [reflexivity|].
     apply existsb_false. intros s Hs. apply orb_false_iff. split.
     - apply existsb_false. intros b Hb. destruct (sh_breaks s) as [bs|] eqn:Eb; [|destruct Hb]. cbn [olist] in Hb.
@@ -659,7 +744,7 @@ End Safe.
 
 (* ---------- the three clauses of the property, outside the known classes ---------- *)
 Lemma approx_ok d : known d = false -> approx_panics d = false.
-Proof. intros Hk. destruct (known_false d Hk) as (_ & _ & _ & _ & _ & _ & _ & _ & _ & H10). exact H10. Qed.
+Proof. intros Hk. destruct (known_false d Hk) as (_ & _ & _ & _ & _ & _ & H10). exact H10. Qed.
 
 Lemma read_total_l d : known d = false -> read d <> RPanic.
 Proof.
@@ -747,14 +832,16 @@ Proof.
   split; vm_compute; reflexivity.
 Qed.
 
-Lemma k1_witness : k1_three_windows w_k1 = true /\ read w_k1 = ROk /\ violates 1103 w_k1 = true.
+(* K1, K2, K3 were repaired in /repo (c324ed4, d5aa3e7, 89050ae): their former witnesses are now rejected with the right codes *)
+Lemma fixed_regression_l :
+  known w_k1 = false /\ read w_k1 = RErr [1103]
+  /\ known w_k2_accept = false /\ read w_k2_accept = RErr [1103]
+  /\ known w_k2_panic = false /\ read w_k2_panic = RErr [1103]
+  /\ known w_k3 = false /\ read w_k3 = RErr [1302; 1303; 1307].
 Proof. repeat split; vm_compute; reflexivity. Qed.
-Lemma k2_witness_accept : k2_unchecked_task_times w_k2_accept = true /\ read w_k2_accept = ROk /\ violates 1103 w_k2_accept = true.
-Proof. repeat split; vm_compute; reflexivity. Qed.
-Lemma k2_witness_panic : k2_unchecked_task_times w_k2_panic = true /\ validate w_k2_panic = VOk /\ read w_k2_panic = RPanic.
-Proof. repeat split; vm_compute; reflexivity. Qed.
-Lemma k3_witness : k3_offset_break_bad_start w_k3 = true /\ validate w_k3 = VPanic /\ read w_k3 = RPanic.
-Proof. repeat split; vm_compute; reflexivity. Qed.
+
+
+
 Lemma k4_witness : k4_start_latest_bad w_k4 = true /\ breaks_no_rule w_k4 /\ validate w_k4 = VOk /\ read w_k4 = RPanic.
 Proof. split; [|split; [apply breaks_no_rule_dec|split]]; vm_compute; reflexivity. Qed.
 Lemma k5_witness : k5_offset_arity w_k5 = true /\ breaks_no_rule w_k5 /\ validate w_k5 = VOk /\ read w_k5 = RPanic.
